@@ -44,7 +44,7 @@ class Run:
         self.events = []
         self.max_values = explorer.max_values
         self.lazy_ints = getattr(explorer, "lazy_ints", True)
-        self.lazy_text = getattr(explorer, "lazy_text", True)
+        self.lazy_text = getattr(explorer, "lazy_text", False)
 
     # -- solver ---------------------------------------------------------------------------------
     def assume(self, c):
@@ -583,9 +583,12 @@ class Explorer:
         if workers <= 1 or state is None:
             self._run_stack(stack, body, on_path)
             return self.paths
-        self._run_stack(stack, body, on_path, stop=lambda st: len(st) >= workers * 3)
+        # breadth first until there are many open prefixes: shallow prefixes stand for large subtrees,
+        # so splitting them further evens out the shares
+        self._run_stack(stack, body, on_path, stop=lambda st: len(st) >= workers * 12 or self.paths >= 4 * workers, fifo=True)
         if not stack:
             return self.paths
+        stack.sort(key=len)
         import pickle
         import tempfile
         import traceback
@@ -653,11 +656,11 @@ class Explorer:
             raise RuntimeError(f"exploration worker failed: {msg}")
         return self.paths
 
-    def _run_stack(self, stack, body, on_path, stop=None):
+    def _run_stack(self, stack, body, on_path, stop=None, fifo=False):
         while stack:
             if stop is not None and stop(stack):
                 return
-            prefix = stack.pop()
+            prefix = stack.pop(0) if fifo else stack.pop()
             if self.paths >= self.max_paths:
                 raise PathLimit(f"more than {self.max_paths} paths")
             run = Run(self, prefix)
